@@ -289,8 +289,8 @@ CLAIMS = {
             "node's own first/second subjects; one deviant sibling (array_diff) is a recorded finding. R-EQSYM: every "
             "==/!= inside an ir::equals(l, r, k) overload whose operands derive from the parameters pairs the same "
             "accessor path of l and of r (or is a same-side bound, an end() sentinel, or a mirrored constant test); "
-            "every boolean predicate applied to one operand has its mirror on the other (found and repaired: "
-            "equals(enum_type_decl) looked for redundant enumerator values in `r` twice)",
+            "every boolean predicate applied to one operand has its mirror on the other (found: equals(enum_type_decl) "
+            "asks its redundancy question of `r` in both loops - a recorded, replayed finding)",
             "symmetry of equals() over cyclic type graphs (canonical-type propagation) and hash consistency are "
             "runtime properties and are not decided; R-EQSYM decides only the syntactic pairing",
             "§3 R-HASCHG, §4 C21"),
